@@ -148,3 +148,25 @@ def C19_imp_grouping_observed(case, params):
     if not any(re.match(r"^\*?IMP:[^,\s]+,", (spec.tokens(card.text) or [""])[0]) for card in blocks[2]):
         return False
     return rt.c19_check(c, [e for e in prog if e.get("kind") != "placement"]) is None
+
+
+def C19_rotation_after_comment(case, params):
+    import rt
+    import findings_rt as FR
+    return FR.rotation_after_comment(case, rt.c19_check)
+
+
+def C19_rotation_set_twice(case, params):
+    import rt
+    import findings_rt as FR
+    if case.get("kind") != "observation-changed-output":
+        return False
+    return FR.rotation_set_twice(case, rt.c19_check)
+
+
+def C19_rotation_after_last_value_edit(case, params):
+    """F-C19-rotation-after-last-value-edit: the last value of a TR card is changed and later rotation entries are
+    appended behind it; a write or str() in between changes the number of blanks after the changed value."""
+    import rt
+    import findings_rt as FR
+    return FR.rotation_after_last_value_edit(case, rt.c19_check)
